@@ -11,8 +11,10 @@ A. classification - `get_optional_outputs` and
    40 % of the four-leaf ones) plus random larger expressions, against a
    truth-table classifier;
 B. validation - generated flow.cylc files (graph optionality x user
-   completion expression) loaded with the real WorkflowConfig; accepted iff
-   the consistency table of E.3 has no conflict; ill-formed expressions
+   completion expression) loaded with the real WorkflowConfig; an
+   accepted configuration must have no conflict in the consistency table of
+   E.3 (refusing a consistent one is only counted: the statement says
+   "accepts only if consistent"); ill-formed expressions
    (finished, hyphens, alternative qualifier spellings, unknown names,
    non-boolean syntax) must be rejected;
 C. skip mode - the real `process_outputs` with default skip settings must
@@ -42,8 +44,8 @@ META = {
         'three leaves and a 40 % sample of the four-leaf trees), plus random '
         'larger expressions. Several hundred (quick) / thousand (thorough) '
         'generated workflow configurations are loaded with the real '
-        'WorkflowConfig and acceptance is compared with the documented '
-        'graph/expression consistency table; skip-mode default outputs are '
+        'WorkflowConfig and every acceptance is checked against the '
+        'documented graph/expression consistency table; skip-mode default outputs are '
         'compared with the required set. Held = no disagreement on what was '
         'explored.'),
     'level_note': 'Models in vlib/models/c11_completion.py (Appendix E.3) '
@@ -65,6 +67,10 @@ ASSUMPTIONS = [
     'language); other syntax is only used as must-reject input',
     'only graph-declarable optionality patterns are generated; graphs '
     'rejected by the graph parser are discarded (counted)',
+    'validation is judged in one direction only: accepting an inconsistent '
+    'or ill-formed expression is a violation; refusing a consistent one is '
+    'counted (over_rejection_*), and enough consistent expressions must be '
+    'accepted for the accept side to be exercised (MIN)',
     'a load that fails with an internal error (e.g. KeyError) instead of '
     'WorkflowConfigError is counted as a rejection (counter '
     'rejected_by_internal_error), not as acceptance',
@@ -78,14 +84,14 @@ MIN = {
         'classify_exprs': 18000, 'classify_calls': 70000,
         'classify_random_big': 500, 'validation_loads': 250,
         'validation_expect_accept': 60, 'validation_expect_reject': 60,
-        'validation_illformed': 30, 'skip_checks': 1500,
+        'validation_accepted_consistent': 40, 'validation_illformed': 30, 'skip_checks': 1500,
         'skip_checks_via_config': 60,
     },
     'thorough': {
         'classify_exprs': 53646, 'classify_calls': 320000,
         'classify_random_big': 5000, 'validation_loads': 4000,
         'validation_expect_accept': 1000, 'validation_expect_reject': 1000,
-        'validation_illformed': 400, 'skip_checks': 2400,
+        'validation_accepted_consistent': 600, 'validation_illformed': 400, 'skip_checks': 2400,
         'skip_checks_via_config': 800,
     },
 }
@@ -439,16 +445,18 @@ def validation_case(ctx, rng):
     else:
         ctx.count('validation_expect_accept')
         if outcome == 'rejected':
+            # The statement is one-directional ("accepts ... only if
+            # consistent"): refusing a consistent expression does not
+            # contradict it.  Counted, never a violation.
             implicit = (marks.get(M.SUCCEEDED) is None
                         and marks.get(M.FAILED) is None
                         and cls.get('succeeded') != M.REQ)
-            cause = ('succeeded-not-in-graph-treated-as-graph-required'
-                     if implicit else 'other')
-            ctx.violation(
-                f'C12:validation:rejected-consistent:{cause}',
-                f'completion = {text!r} rejected although consistent with '
-                f'graph marks {desc["graph_marks"]}: '
-                f'{desc.get("error", "")[:160]}', desc)
+            ctx.count('over_rejection_succeeded_not_in_graph' if implicit
+                      else 'over_rejection_other')
+        else:
+            ctx.count('validation_accepted_consistent')
+        if outcome == 'rejected':
+            pass
         elif len(ctx.samples) < 2 and (
                 ctx.shard % 3 == 1 or ctx.nshards < 3):
             ctx.sample({'monitor': 'B validation', 'outcome': outcome,
